@@ -3,9 +3,11 @@ package benchstat
 // C17: the legacy benchstat library's tables follow its documented statistics.
 
 import (
+	"bytes"
 	"errors"
 	"math"
 	"strconv"
+	"strings"
 
 	"golang.org/x/perf/internal/stats"
 	"golang.org/x/perf/storage/benchfmt"
@@ -408,4 +410,121 @@ func H17Stable() {
 		got += r.Benchmark
 	}
 	vndObserveStr("rows", got)
+}
+
+// H17Notes: when the test yields a p-value the note reports it together with the RETAINED
+// sample sizes. Both configurations have six spread values plus one more value (arbitrary in the
+// old configuration, an outlier in the new one) that may fall outside the 1.5-IQR fences; the p-value comes from the hook.
+func H17Notes() {
+	h17Vals, h17Next = nil, 0
+	a := vndFloat64("a")
+	vndAssume(vndAnd(a >= -1e6, a <= 1e6))
+	oldVals := []float64{10, 12, 14, 16, 18, 20, a}
+	newVals := []float64{11, 13, 15, 17, 19, 21, 1000} // 1000 is outside the fences
+	var olds, news []*benchfmt.Result
+	for _, v := range oldVals {
+		olds = append(olds, h17Result("X", v, "ns/op"))
+	}
+	for _, v := range newVals {
+		news = append(news, h17Result("X", v, "ns/op"))
+	}
+	p := []float64{0.5, 0.001}[vndChoice("p", 2)]
+	c := &Collection{DeltaTest: func(old, new *Metrics) (float64, error) { return p, nil }}
+	c.AddResults("old", olds)
+	c.AddResults("new", news)
+	tables := c.Tables()
+	vndReach("h17:notes")
+	if len(tables) != 1 || len(tables[0].Rows) != 1 {
+		vndAssert(false, "one-table-one-row")
+		return
+	}
+	retained := func(vals []float64) int {
+		s := stats.Sample{Xs: append([]float64(nil), vals...)}
+		q1, q3 := s.Percentile(0.25), s.Percentile(0.75)
+		lo, hi := q1-1.5*(q3-q1), q3+1.5*(q3-q1)
+		n := 0
+		for _, v := range vals {
+			n += vndIteInt(vndAnd(lo <= v, v <= hi), 1, 0)
+		}
+		return n
+	}
+	n1, n2 := vndConcretize(retained(oldVals)), vndConcretize(retained(newVals))
+	if n1 < 7 || n2 < 7 {
+		vndReach("h17:notes-outlier")
+	}
+	ps := "0.500"
+	if p == 0.001 {
+		ps = "0.001"
+	}
+	want := "(p=" + ps + " n=" + string([]byte{'0' + byte(n1)}) + "+" + string([]byte{'0' + byte(n2)}) + ")"
+	vndAssert(tables[0].Rows[0].Note == want, "note-reports-p-and-retained-sample-sizes")
+}
+
+// H17Text: the text rendering reports every benchmark's statistics under the heading of the
+// configuration they belong to. Three configurations, three benchmarks; which benchmark was
+// measured under which configuration is arbitrary (a blank cell stands for a missing one).
+func H17Text() {
+	h17Vals, h17Next = nil, 0
+	names := []string{"A", "B", "C"}
+	cfgs := []string{"c0", "c1", "c2"}
+	var present [3][3]bool
+	perCfg := make([][]*benchfmt.Result, 3)
+	for ci := range cfgs {
+		for bi, nm := range names {
+			present[bi][ci] = vndBool("present")
+			if ci == 0 && bi == 0 {
+				vndAssume(present[bi][ci]) // the first benchmark fixes the order of appearance
+			}
+			if present[bi][ci] {
+				perCfg[ci] = append(perCfg[ci], h17Result(nm, float64(100*(bi+1)+10*ci+1), "ns/op"))
+			}
+		}
+	}
+	c := &Collection{}
+	for ci, name := range cfgs {
+		vndAssume(len(perCfg[ci]) > 0)
+		c.AddResults(name, perCfg[ci])
+	}
+	tables := c.Tables()
+	var buf bytes.Buffer
+	FormatText(&buf, tables)
+	vndReach("h17:text")
+	lines := strings.Split(strings.TrimRight(buf.String(), "\n"), "\n")
+	if len(tables) != 1 || len(lines) != 1+len(tables[0].Rows) {
+		vndAssert(false, "one-table-one-line-per-row")
+		return
+	}
+	// column start offsets from the heading line
+	head := lines[0]
+	start := make([]int, 3)
+	for ci, name := range cfgs {
+		start[ci] = strings.Index(head, name)
+		vndAssert(start[ci] > 0, "every-configuration-has-a-heading")
+		if start[ci] <= 0 {
+			return
+		}
+	}
+	for ri, row := range tables[0].Rows {
+		line := []rune(lines[1+ri])
+		bi := int(row.Benchmark[0] - 'A')
+		for ci := range cfgs {
+			end := len(line)
+			if ci+1 < 3 {
+				end = start[ci+1] - 2
+			}
+			cell := ""
+			if start[ci] < len(line) {
+				if end > len(line) {
+					end = len(line)
+				}
+				cell = strings.TrimSpace(string(line[start[ci]:end]))
+			}
+			want := ""
+			if present[bi][ci] {
+				want = row.Metrics[ci].Format(row.Scaler)
+			}
+			vndAssert(cell == want, "text-cell-under-the-heading-of-its-configuration")
+		}
+	}
+	vndObserveStr("text", buf.String())
 }
